@@ -88,4 +88,19 @@ CLAIMS = {
              "sibling validators use the converter of their unit. Type soundness over all YAML values is not decided.",
         technique="table agreement (spec file vs validator table vs signatures); CFG must-pass; who-may-write; suffix-shadowing and constant folding",
         ref="4/C12"),
+    "C14": dict(
+        text="Static analysis of structural necessary conditions of the serial links: the primitive the FAST writer awaits "
+             "after a confirmed command is armed by pause_sending and woken by the confirmation handler (known finding "
+             "F11: it is not); bytes reach the port only through the single writer task (plus the tabled pre-task "
+             "flush), all send helpers only enqueue on a FIFO asyncio.Queue; retry loop shape and whether the timeout "
+             "covers the wait for the response (known finding F15: it does not); the three incremental parsers append "
+             "first, take [:pos] and keep [pos+1:] (delimiter framing) or use one and the same length in completeness "
+             "test, dispatched slice, kept suffix and mirrored counter (OPP), leaving incomplete frames untouched; OPP "
+             "frame lengths agree between parser, handlers' length test, CRC range and CRC index; every switch effect "
+             "and remembered-state store is dominated by the CRC-equal and complete-frame sides; CRC8 table equals the "
+             "polynomial 0x07 table; OPP resync only on a gen2 address byte, one byte at a time; FAST message "
+             "processors apply switch data synchronously (no deferral). Split-invariance as such and switch states "
+             "after arbitrary valid streams are not decided.",
+        technique="wake-up/arm agreement of asyncio primitives; who-may-call; CFG guards; slice/length constant agreement; generated CRC table oracle",
+        ref="4/C14"),
 }
